@@ -151,5 +151,6 @@ func main() {
 		genWire(p, *out)
 		genWireDec(p, *out)
 		genBuf(p, *out)
+		genRead(p, *out)
 	}
 }
